@@ -113,7 +113,7 @@ fn paged(e: &REnt, keys: &[Lit], before: bool, as_var: bool, wild: bool, first: 
             var = true;
         }
         values.push(if var {
-            FVal::Var(format!("w{}", i), k.clone())
+            FVal::Var(format!("wq{}", i), k.clone())
         } else {
             FVal::Lit(k.clone())
         });
@@ -320,29 +320,11 @@ pub fn walk(w: &World, rq: &RQuery, ws: &WalkSpec, wild: bool, main_set: &[Quirk
         _ => {}
     }
     // which evaluation explains what was seen?
-    let mut explained: Option<Vec<Quirk>> = None;
-    let mut sets: Vec<Vec<Quirk>> = vec![vec![]];
-    for q in ALL_QUIRKS.iter() {
-        sets.push(vec![*q]);
-    }
-    if !main_set.is_empty() {
-        sets.push(main_set.to_vec());
-        for q in ALL_QUIRKS.iter() {
-            if !main_set.contains(q) {
-                let mut s = main_set.to_vec();
-                s.push(*q);
-                sets.push(s);
-            }
-        }
-    }
-    for set in sets {
-        let mut r = sim_reader(w, set.clone());
+    let explained = crate::check::explain(&mut |set: &[Quirk]| {
+        let mut r = sim_reader(w, set.to_vec());
         let (s2, stop2, _) = do_walk(&e, ws, wild, &pivot_id, max_pages, &mut scratch, &mut r);
-        if s2 == seen && stop2 == stop {
-            explained = Some(set);
-            break;
-        }
-    }
+        s2 == seen && stop2 == stop
+    });
     match explained {
         Some(set) if set.is_empty() => {
             // every page is what the direct evaluation of that page gives, yet the walk is not a partition
